@@ -474,7 +474,7 @@ def r48(ctx, sn):
         ctx.ok('C02.R8', 'promotion: the pawn on the destination is replaced by the promotion piece (knight branch and general branch)', w)
     elif not any(p[1].startswith('promo') for p in problems):
         ctx.violation('C02.R8', MN + ':promotion', 'promotion toggles incomplete (knight branch %d/2, general branch %d/2)' % (seen['promo-knight'], seen['promo-other']), w)
-    ctx.floor('C02.R8', 'placement toggles in make_move_new', n_xor, 10)
+    ctx.floor('C02.R8', 'placement toggles in make_move_new', n_xor, 6)
     # castles flag definition
     cexprs = [c.get('castles-expr') for e in evs for conj in e['dnf'] for c in [lit_kinds(ctx, sn, conj, M, SRC, DST)] if c.get('castles-expr') is not None]
     if cexprs:
